@@ -9,9 +9,13 @@
    texts, separator number i before token number i; `separator`: white space, line comments, non-nested block comments in any
    number and order; `follow_ok`: an identifier or number is not directly followed by an identifier byte, a `/` not by `/` or
    `*`; `wtok` / `showw`: the same with a free choice of spelling per token); C09_text_tokens / C09_text_roundtrip go from the CHARACTERS through the tokenizer model (Text/TokenModel.v) and the
-   parser model back to the statements (proofs: Text/LexRun.v, Text/ShowProofs.v). *)
+   parser model back to the statements (proofs: Text/LexRun.v, Text/ShowProofs.v).
+   NESTED block comments (last part of this file): Text/ShowNested.v enlarges the separator language (`nseparator`, `nseps_ok`):
+   the content of a block comment may contain well-bracketed block comments to any depth d with d + 1 < 2^31 (`comment_body d`,
+   `depth_ok d`: the scanner counts open comments in an i32); proofs in Text/ShowNestedProofs.v. *)
 From Coq Require Import ZArith NArith List.
-From Trion Require Import Base.Utf8 Text.Types Text.ParseModel Text.Render Text.ParseProofs Text.Pipeline Text.ShowSpec Text.ShowProofs.
+From Trion Require Import Base.Utf8 Text.Types Text.ParseModel Text.Render Text.ParseProofs Text.Pipeline Text.ShowSpec Text.ShowProofs
+  Text.ShowNested Text.ShowNestedProofs.
 From Trion Require Text.TokenModel.
 Import ListNotations.
 Open Scope N_scope.
@@ -142,4 +146,61 @@ Theorem C09_text_examples :
     [105; 32; 97; 45; 47; 42; 120; 42; 47; 40; 98; 9; 45; 99; 41; 42; 13; 10; 45; 100; 47; 47; 99; 10; 124; 49; 48; 47; 32;
      34; 113; 92; 117; 123; 50; 50; 125; 34; 59; 10] /\
   parse_bytes (show (render_stmt ex_stmt) ex_seps) = Some (Done [IOk (mkElement 1 1 ex_stmt)] [PollNone; PollNone; PollNone]).
+Proof. vm_compute. repeat split. Qed.
+
+(* ---------------------------------------------------------------------------------------------- *)
+(* NESTED block comments as separators (ShowNested.v).  A block comment is  slash-star content star-slash  where the content is a
+   sequence of plain bytes (a byte that forms neither slash-star nor star-slash with the byte after it; the byte after the last
+   one is the closer's star) and of complete block comments of the same form: `comment_body d content`, d = number of levels
+   inside.  Bound: `depth_ok d` = d + 1 < 2^31 -- the comment itself and its d inner levels make the scanner's i32 counter reach
+   d + 1 (`depth` in src/text/token/mod.rs; with overflow checks the increment to 2^31 would panic, without them it wraps).
+   For every statement sequence and every choice of such separators (white space, CRLF, line comments, nested block comments in
+   any number and order, nothing fusing), tokenizing and parsing the shown text yields the identical statements. *)
+Theorem C09_text_roundtrip_nested : forall stmts seps, forallb writable_stmt stmts = true -> nseps_ok (render_stmts stmts) seps ->
+  exists els, parse_bytes (show (render_stmts stmts) seps) = Some (Done (map IOk els) [PollNone; PollNone; PollNone]) /\
+              map e_val els = stmts.
+Proof. exact text_roundtrip_nested. Qed.
+
+(* every argument tree, as the argument of an instruction *)
+Theorem C09_text_roundtrip_nested_tree : forall t name seps, writable_stmt (EInstruction name [t]) = true ->
+  nseps_ok (render_stmt (EInstruction name [t])) seps ->
+  exists line col, parse_bytes (show (render_stmt (EInstruction name [t])) seps)
+                   = Some (Done [IOk (mkElement line col (EInstruction name [t]))] [PollNone; PollNone; PollNone]).
+Proof. exact text_roundtrip_nested_tree. Qed.
+
+(* the tokens themselves *)
+Theorem C09_text_tokens_nested : forall ts seps, Forall tok_ok ts -> nseps_ok ts seps ->
+  exists toks, TokenModel.tokens_all (show ts seps) = TokenModel.Ok (map inl toks, [None; None; None]) /\ map t_val toks = ts.
+Proof. exact nshow_tokens. Qed.
+
+(* most general form: any valid parenthesisation (RendStmts), any spelling of each token (wtok), any separators incl. nested comments *)
+Theorem C09_text_roundtrip_nested_spelled : forall stmts ws seps, RendStmts stmts (map wtok_val ws) -> Forall wtok_ok ws ->
+  nwseps_ok ws seps ->
+  exists els, parse_bytes (showw ws seps) = Some (Done (map IOk els) [PollNone; PollNone; PollNone]) /\ map e_val els = stmts.
+Proof. exact textw_roundtrip_nested. Qed.
+
+(* the new separator language contains the old one (so the theorems above subsume C09_text_roundtrip / _spelled) *)
+Theorem C09_text_nested_extends : forall ts seps, seps_ok ts seps -> nseps_ok ts seps.
+Proof. exact seps_ok_nseps_ok. Qed.
+
+Theorem C09_text_nested_extends_spelled : forall ws seps, wseps_ok ws seps -> nwseps_ok ws seps.
+Proof. exact wseps_ok_nwseps_ok. Qed.
+
+(* non-vacuity:  i a+/*1/*2/*3*/2*/1/*/ x*/*/b;  -- between `+` and `b` a comment containing a comment containing a comment
+   (three levels open at `3`), followed at level 1 by a nested comment whose content begins with a slash (slash-star-slash is an
+   opener and a slash, not a comment).  The premises hold, the old separator language does not contain this text, and the
+   text and its parse are computed; an unbalanced variant (one closer fewer) is an unterminated-comment error. *)
+Theorem C09_text_nested_example_premises : writable_stmt ex_nested_stmt = true /\
+  nseps_ok (render_stmt ex_nested_stmt) ex_nested_seps /\ ~ seps_ok (render_stmt ex_nested_stmt) ex_nested_seps.
+Proof. exact ex_nested_ok. Qed.
+
+Theorem C09_text_nested_examples :
+  show (render_stmt ex_nested_stmt) ex_nested_seps =
+    [105; 32; 97; 43; 47; 42; 49; 47; 42; 50; 47; 42; 51; 42; 47; 50; 42; 47; 49; 47; 42; 47; 32; 120; 42; 47; 42; 47; 98; 59] /\
+  parse_bytes (show (render_stmt ex_nested_stmt) ex_nested_seps)
+    = Some (Done [IOk (mkElement 1 1 ex_nested_stmt)] [PollNone; PollNone; PollNone]) /\
+  TokenModel.block_scan ex_nested_comment = Some 20%nat /\
+  TokenModel.block_scan [47; 42; 47] = None /\
+  TokenModel.block_scan [47; 42; 47; 42; 47] = None /\
+  TokenModel.block_scan [47; 42; 47; 42; 42; 47; 42; 47] = Some 4%nat.
 Proof. vm_compute. repeat split. Qed.
